@@ -92,7 +92,7 @@ func (s *service) start(mem persistence.LogStatePersistence) (func(), error) {
 		s.done <- omniwitness.Main(ctx, omniwitness.OperatorConfig{
 			WitnessKeys:     s.keys.Signers,
 			WitnessVerifier: s.keys.Signers[len(s.keys.Signers)-1].(interface{ Verifier() note.Verifier }).Verifier(),
-			FeedInterval:    250 * time.Millisecond,
+			FeedInterval:    500 * time.Millisecond, // also the deadline of each feed cycle: generous, so a loaded machine does not time cycles out
 		}, p, ln, &http.Client{Transport: s.mux, Timeout: 5 * time.Second})
 	}()
 	ok := false
